@@ -61,6 +61,7 @@ def _job(spec):
                       "wall": result.wall, "violated": result.violated, "trace": result.trace[:80]}
         if result.violated:
             return out
+        cross = []
         for bkw in spec["bindings"]:
             if module == "Life":
                 from harness import gen
@@ -72,8 +73,12 @@ def _job(spec):
                 binding = cf.CFBinding(c["LP"], **bkw)
             replay = cf.Replay(binding, feat=c.get("Feat", {}), checks=spec.get("checks", cf.ALL_CHECKS),
                                clone_every=spec.get("clone_every", 1))
+            replay.record_outputs = bool(spec.get("cross"))
+            replay.caller_check = bool(spec.get("caller_check"))
             start = time.time()
             replay.run(result.edges)
+            if spec.get("cross"):
+                cross.append((binding, replay))
             out["replays"].append({"binding": binding.describe(), "stats": replay.stats, "wall": time.time() - start,
                                    "samples": replay.samples})
             for finding in replay.findings:
@@ -81,11 +86,54 @@ def _job(spec):
                 finding["consts"] = {k: _plain(v) for k, v in c.items()}
                 finding["engine"] = {"Lin": "lin", "Life": "life"}.get(module, "cf")
                 out["findings"].append(dict(finding))
+        if len(cross) > 1:
+            out["findings"].extend(_cross_compare(spec, cross))
+            out["cross_compared"] = sum(len(r.outputs) for _, r in cross[1:])
     except tlc.TLCError as error:
         out["error"] = "TLC: %s" % error
     except Exception:  # noqa
         out["error"] = traceback.format_exc()
     return out
+
+
+def _cross_compare(spec, cross):
+    """The same TLC graph replayed under several bindings: query outputs must agree edge by edge (C18 containers,
+    C20 relabelling / row order / reward shift and scale).  spec["cross"] names the relation."""
+    from harness import terms
+    findings = []
+    ref_b, ref = cross[0]
+    ref_out = dict(ref.outputs)
+    mode = spec["cross"]
+    for binding, rep in cross[1:]:
+        bad = 0
+        for index, got in rep.outputs:
+            want = ref_out.get(index)
+            if want is None:
+                continue
+            if hasattr(binding, "agree"):
+                ok = binding.agree(got, want, _agree)
+            else:
+                ok = _agree(got, want, 0.0 if mode == "exact" else 1e-9)
+            if not ok and bad < 2:
+                bad += 1
+                findings.append({"clause": "cross." + mode, "op": "query", "engine": "cross", "label": {"edge": index},
+                                 "detail": "edge %d of the same specification graph: under %s the query returns %s, under %s it "
+                                           "returns %s" % (index, json.dumps(binding.describe()), repr(got)[:300],
+                                                           json.dumps(ref_b.describe()), repr(want)[:300]),
+                                 "path": [], "binding": binding.describe(), "job": spec["name"]})
+    return findings
+
+
+def _agree(a, b, tol):
+    if isinstance(a, list) and isinstance(b, list):
+        return len(a) == len(b) and all(_agree(x, y, tol) for x, y in zip(a, b))
+    if isinstance(a, tuple) and isinstance(b, tuple):
+        return len(a) == len(b) and all(_agree(x, y, tol) for x, y in zip(a, b))
+    if isinstance(a, float) and isinstance(b, float):
+        if a != a and b != b:
+            return True
+        return a == b if tol == 0.0 else abs(a - b) <= tol * max(1.0, abs(a), abs(b))
+    return a == b
 
 
 def _plain(v):
@@ -154,6 +202,7 @@ def run_jobs(report, jobs, keep, procs=None, keeps=None):
                 if len(report.samples) < 6:
                     report.samples.append({"engine": "Mab.tla edge replay", "binding": rep["binding"],
                                            "calls": sample["path"], "reached_spec_state": sample["state"]})
+        report.count("cross.outputs_compared", out.get("cross_compared", 0))
         for finding in out["findings"]:
             if keep(finding):
                 report.findings.append(finding)
